@@ -27,8 +27,9 @@ def drv_map(keys0, ops, parsed=False):
     d = {}
     i = 0
     for k in keys0:
-        fields.append(Field(k, "v" + str(i)))
-        d[k] = "v" + str(i)
+        # the initial values are those the operations write ("t0", ...): a write may re-assign the value a key has
+        fields.append(Field(k, "t" + str(i)))
+        d[k] = "t" + str(i)
         i += 1
     other = None
     if parsed:
@@ -42,8 +43,11 @@ def drv_map(keys0, ops, parsed=False):
     held = []      # (field object handed out by get, its key and value at that time)
     for op, k, tag in ops:
         if op == "set_field":
-            e.set_field(Field(k, tag))
+            nf = Field(k, tag, 100)
+            e.set_field(nf)
             d[k] = tag
+            # like d[k] = v; d[k] is v: the field held afterwards is the one that was handed in
+            results.append((e.fields_dict[k] is nf, True))
         elif op == "setitem":
             e[k] = tag
             d[k] = tag
@@ -122,7 +126,8 @@ def task_map(n0, opnames, parsed=False):
     eng = Engine()
     rec = Recorder(eng)
     keys0 = [eng.sym_str(f"k{i}_", 1, KS) for i in range(n0)]
-    ops = [(op, eng.sym_str(f"a{j}_", 1, KS), "t" + str(j)) for j, op in enumerate(opnames)]
+    # the value written by every second operation is falsy ('' - or the int 0): a value like any other for a mapping
+    ops = [(op, eng.sym_str(f"a{j}_", 1, KS), ("t" + str(j)) if j % 2 == 0 else ("" if j % 4 == 1 else 0)) for j, op in enumerate(opnames)]
     E = eng.I.models.eq_simple
     distinct = b_all(b_not(E(a, b)) for a, b in itertools.combinations(keys0, 2))
     worlds = eng.run(drv_map, [keys0, ops, parsed], guard=distinct)
